@@ -123,3 +123,24 @@ def stacked_terms_share_one_iteration_count(ctx):
     """the generated penalty is the documented sum only if every stacked term uses the same n in k*h**n: the iter/iteration/clear/store closures of the two penalty types generate_penalty stacks (quadratic_equality, quadratic_inequality) agree with the family reference - iter(i) sets the count to i whenever i is not None (0 included), counts up otherwise, and forwards to the nested term (shared with C15.a)"""
     from .c15 import closure_family
     closure_family(ctx, types=('quadratic_equality', 'quadratic_inequality'))
+
+
+@rule('C14.e', min_instances=5)
+def constraint_and_penalty_share_their_settings(ctx):
+    """the penalty and the constraint generated from one text agree only if both generators read the strictness tolerances under their own names (locals['tol'] from 'tol', locals['rel'] from 'rel'; shared with C13.e), and the documented k / h of the per-line penalty terms reach every term: each recursive call of generate_penalty (the join branch) forwards **kwds"""
+    from .c13 import epsilon_keys
+    epsilon_keys(ctx)
+    g = ctx.func(SY + ':generate_penalty')
+    kw = g.node.args.kwarg.arg if g.node.args.kwarg else None
+    ctx.need(kw, 'generate_penalty no longer takes **kwds')
+    rec = calls_where(g.node, lambda c: isinstance(c.func, ast.Name) and c.func.id == 'generate_penalty', include_lambda=True)
+    rec += [c for n in ast.walk(g.node) if isinstance(n, (ast.GeneratorExp, ast.ListComp)) for c in ast.walk(n)
+            if isinstance(c, ast.Call) and isinstance(c.func, ast.Name) and c.func.id == 'generate_penalty' and c not in rec]
+    ctx.need(len(rec) >= 2, 'generate_penalty: expected >= 2 recursive calls (join branch), found %d' % len(rec))
+    for c in rec:
+        fwd = any(k.arg is None and isinstance(k.value, ast.Name) and k.value.id == kw for k in c.keywords)
+        ctx.check(fwd, 'generate_penalty#recursion@%d' % rec.index(c), 'recursive call forwards **%s' % kw,
+                  'a recursive call of generate_penalty drops **%s: with join= given, the per-line penalties are built with the default k and h instead of the caller\'s' % kw, g, enclosing_stmt(c))
+    stack = [c for c in ast.walk(g.node) if isinstance(c, ast.Call) and isinstance(c.func, ast.Name) and c.func.id == 'penalty']
+    ctx.check(bool(stack) and all(any(k.arg is None and isinstance(k.value, ast.Name) and k.value.id == kw for k in c.keywords) for c in stack), 'generate_penalty#stack-settings',
+              'every stacked term is built as penalty(condition, **%s)' % kw, 'a stacked penalty term is built without the caller\'s settings', g, g.node)
